@@ -299,11 +299,12 @@ def report(ctx: click.Context, tjp_file: Optional[str], output_csv: bool, output
             # input that is not valid UTF-8 is unreadable input (exit 1), as it is for a file
             stdin_bytes = sys.stdin.buffer.read()
             try:
-                stdin_content = stdin_bytes.decode("utf-8")
+                stdin_bytes.decode("utf-8")
             except UnicodeDecodeError as e:
                 raise FileNotFoundError(f"Cannot read stdin: {e}") from e
 
-            if not stdin_content.strip():
+            # Empty means the same as for a file: nothing but (ASCII) white space in the bytes
+            if not stdin_bytes.strip():
                 raise FileNotFoundError("No input provided on stdin")
 
             # Create temporary file from stdin content (safe for concurrent execution)
